@@ -262,6 +262,9 @@ const ALPHABET: &[&str] = &[
     // escaped identifiers (and the compound selector the unescaped text would mean)
     ".a\\.b", ".a\\:b", ".a\\.b c", "#a\\.b", ".a.b", ".a", ".a\\\\b", ".\\.a", ".a\\ b",
     ".w-1\\/2",
+    // keys that begin or end with white space (an escaped space): a name is looked
+    // up verbatim
+    "#\\ i", ".d\\ >e",
     // hex escapes with the terminating space; several spellings of one key
     "#\\31 23", ".\\31 23", ".\\e9 x", ".\\E9 x", ".éx", ".\\63 d", ".\\63  d", ".\\000063 d",
     "#\\69  .c", ".\\6587 x", ".\\1F600 x",
